@@ -18,83 +18,89 @@ def run(args, prop="C15", reps=1, finish=True):
                        "items, missing items, a missing module and cycles; 663552 graphs, this run %s of them): per import "
                        "item the specified verdict, for accepted graphs the specified output; analysed once and run on both "
                        "backends; import statements in 2 (thorough: 3) different orders, two naming schemes (b / c, and lib / lib_x with x_h, x_hist against h, hist); non-trivial = distinct rendered graphs" % ("all" if thorough else "1/%d" % nsl))
-    seen = {}
+    pool = C.Pool(C.build_worker())
+    all_cases = []
+    # one slice of the graph space at a time: generated, rendered, run, judged and dropped (the whole space does not fit into memory)
     for sl in (range(nsl) if thorough and prop == "C15" else [C.seed() % nsl]):
+        seen = {}
         r = C.run_tlc("HmsLink", L.cfg(sl, nsl), timeout=2400, heap="16g")
         C.tlc_must_pass(r, "HmsLink")
         rep.add_tlc(r)
         for c in r.cases:
             key = json.dumps(c["g"], sort_keys=True)
             seen.setdefault(key, c)
-    cases = [c for c in seen.values() if not c["unspecified"]]
-    rep.notes["unspecified_graphs_skipped"] = len(seen) - len(cases)
-    pool = C.Pool(C.build_worker())
-    reqs, meta = [], []
-    # (order of the import statements, naming scheme)
-    orders = ((0, 0), (1, 1), (2, 0), (2, 1)) if thorough else ((0, C.seed() % 2), (1 + C.seed() % 2, 1 - C.seed() % 2))
-    for c in cases:
-        done = set()
-        for order, naming in orders:
-            mods, lines = L.render(c["g"], order, naming)
-            key = json.dumps(mods, sort_keys=True)
-            if key in done:
+        r = None
+        cases = [c for c in seen.values() if not c["unspecified"]]
+        rep.notes["unspecified_graphs_skipped"] = rep.notes.get("unspecified_graphs_skipped", 0) + len(seen) - len(cases)
+        reqs, meta = [], []
+        # (order of the import statements, naming scheme)
+        orders = ((0, 0), (1, 1), (2, 0), (2, 1)) if thorough else ((0, C.seed() % 2), (1 + C.seed() % 2, 1 - C.seed() % 2))
+        for c in cases:
+            done = set()
+            for order, naming in orders:
+                mods, lines = L.render(c["g"], order, naming)
+                key = json.dumps(mods, sort_keys=True)
+                if key in done:
+                    continue
+                done.add(key)
+                rep.nontrivial(key)
+                for b in ("vm", "tree"):
+                    for k in range(reps):
+                        reqs.append({"op": "run", "id": len(reqs), "a": {"modules": mods, "entry": "main", "backend": b, "timeout_ms": 8000}})
+                        meta.append((c, mods, lines, b, naming, k))
+        res = pool.map(reqs, timeout=30)
+        first = {}
+        for (c, mods, lines, b, naming, k), rr in zip(meta, res):
+            rep.count()
+            g = c["g"]
+            feat = {"family": "graph", "backend": b, "overlap": L.overlap(g), "hasc": g["hasc"], "accepted": c["accepted"], "naming": naming}
+            if "crash" in rr or "hang" in rr:
+                from .sem import panic_class
+                rep.fail(dict(feat, kind="hostcrash" if "crash" in rr else "hang", panic=panic_class((rr.get("crash") or {}).get("stderr", ""))),
+                         {"modules": mods, "real": str(rr)[:1500]})
                 continue
-            done.add(key)
-            rep.nontrivial(key)
-            for b in ("vm", "tree"):
-                for k in range(reps):
-                    reqs.append({"op": "run", "id": len(reqs), "a": {"modules": mods, "entry": "main", "backend": b, "timeout_ms": 8000}})
-                    meta.append((c, mods, lines, b, naming, k))
-    res = pool.map(reqs, timeout=30)
-    first = {}
-    for (c, mods, lines, b, naming, k), rr in zip(meta, res):
-        rep.count()
-        g = c["g"]
-        feat = {"family": "graph", "backend": b, "overlap": L.overlap(g), "hasc": g["hasc"], "accepted": c["accepted"], "naming": naming}
-        if "crash" in rr or "hang" in rr:
-            from .sem import panic_class
-            rep.fail(dict(feat, kind="hostcrash" if "crash" in rr else "hang", panic=panic_class((rr.get("crash") or {}).get("stderr", ""))),
-                     {"modules": mods, "real": str(rr)[:1500]})
-            continue
-        a = rr["r"]
-        errs = [{"file": d["file"], "span": d["span"], "msg": d["msg"]} for d in a["diags"] if d["level"] == "Error"] + \
-               [{"file": s["span"]["f"], "span": s["span"], "msg": s["msg"]} for s in a["syntax"]]
-        oc = a.get("outcome") or {}
-        obs = {"errs": sorted((e["file"], e["span"]["s"][0], e["msg"]) for e in errs), "out": a["out"], "kind": oc.get("kind"), "accepted": a["accepted"]}
-        # C14: every repetition of the same sources gives the same diagnostics, output and outcome
-        fk = (json.dumps(mods, sort_keys=True), b)
-        if fk not in first:
-            first[fk] = obs
-        elif first[fk] != obs:
-            rep.fail(dict(feat, kind="repetition-differs", what="diagnostics" if first[fk]["errs"] != obs["errs"] else "output"),
-                     {"modules": mods, "first": first[fk], "now": obs, "repetition": k})
-            continue
-        if k > 0:
-            continue
-        exp_err = {(e[0], e[1][0], e[1][1]): e[2] for e in c["errors"]}
-        if b == "vm":      # the analysis is the same for both backends: judge it once
-            for (m, item, frm), line in lines.items():
-                here = [e for e in errs if e["file"] == L.fname(m, naming) and e["span"]["s"][0] == line]
-                want = exp_err.get((m, item, frm))
-                if want == "cycle":
-                    if not any("cyclic" in e["msg"].lower() for e in errs):
+            a = rr["r"]
+            errs = [{"file": d["file"], "span": d["span"], "msg": d["msg"]} for d in a["diags"] if d["level"] == "Error"] + \
+                   [{"file": s["span"]["f"], "span": s["span"], "msg": s["msg"]} for s in a["syntax"]]
+            oc = a.get("outcome") or {}
+            obs = {"errs": sorted((e["file"], e["span"]["s"][0], e["msg"]) for e in errs), "out": a["out"], "kind": oc.get("kind"), "accepted": a["accepted"]}
+            # C14: every repetition of the same sources gives the same diagnostics, output and outcome
+            fk = (json.dumps(mods, sort_keys=True), b)
+            if fk not in first:
+                first[fk] = obs
+            elif first[fk] != obs:
+                rep.fail(dict(feat, kind="repetition-differs", what="diagnostics" if first[fk]["errs"] != obs["errs"] else "output"),
+                         {"modules": mods, "first": first[fk], "now": obs, "repetition": k})
+                continue
+            if k > 0:
+                continue
+            exp_err = {(e[0], e[1][0], e[1][1]): e[2] for e in c["errors"]}
+            if b == "vm":      # the analysis is the same for both backends: judge it once
+                for (m, item, frm), line in lines.items():
+                    here = [e for e in errs if e["file"] == L.fname(m, naming) and e["span"]["s"][0] == line]
+                    want = exp_err.get((m, item, frm))
+                    if want == "cycle":
+                        if not any("cyclic" in e["msg"].lower() for e in errs):
+                            rep.fail(dict(feat, kind="bad-import-not-diagnosed", cls=want), {"modules": mods, "import": [m, item, frm], "diags": errs})
+                    elif want and not here:
                         rep.fail(dict(feat, kind="bad-import-not-diagnosed", cls=want), {"modules": mods, "import": [m, item, frm], "diags": errs})
-                elif want and not here:
-                    rep.fail(dict(feat, kind="bad-import-not-diagnosed", cls=want), {"modules": mods, "import": [m, item, frm], "diags": errs})
-                elif not want and [e for e in here if "cyclic" not in e["msg"].lower()]:
-                    # (a cycle is reported at whichever import statement the analyzer was at: not attributed to an item)
-                    here = [e for e in here if "cyclic" not in e["msg"].lower()]
-                    rep.fail(dict(feat, kind="good-import-diagnosed", msg=here[0]["msg"][:40]), {"modules": mods, "import": [m, item, frm], "diags": errs})
-            if c["accepted"] and errs:
-                rep.fail(dict(feat, kind="well-formed-graph-rejected", msg=errs[0]["msg"][:60]), {"modules": mods, "diags": errs[:4]})
-            if not c["accepted"] and not errs:
-                rep.fail(dict(feat, kind="ill-formed-graph-accepted", cls=sorted(set(exp_err.values()))[0]),
-                         {"modules": mods, "expected_errors": c["errors"]})
-        if c["accepted"] and a["accepted"]:
-            want = L.expected_text(c["out"])
-            if a["out"] != want or oc.get("kind") != "done":
-                rep.fail(dict(feat, kind="wrong-output"), {"modules": mods, "want": want, "got": a["out"], "outcome": oc})
-    for c in rnd.sample(cases, 2):
+                    elif not want and [e for e in here if "cyclic" not in e["msg"].lower()]:
+                        # (a cycle is reported at whichever import statement the analyzer was at: not attributed to an item)
+                        here = [e for e in here if "cyclic" not in e["msg"].lower()]
+                        rep.fail(dict(feat, kind="good-import-diagnosed", msg=here[0]["msg"][:40]), {"modules": mods, "import": [m, item, frm], "diags": errs})
+                if c["accepted"] and errs:
+                    rep.fail(dict(feat, kind="well-formed-graph-rejected", msg=errs[0]["msg"][:60]), {"modules": mods, "diags": errs[:4]})
+                if not c["accepted"] and not errs:
+                    rep.fail(dict(feat, kind="ill-formed-graph-accepted", cls=sorted(set(exp_err.values()))[0]),
+                             {"modules": mods, "expected_errors": c["errors"]})
+            if c["accepted"] and a["accepted"]:
+                want = L.expected_text(c["out"])
+                if a["out"] != want or oc.get("kind") != "done":
+                    rep.fail(dict(feat, kind="wrong-output"), {"modules": mods, "want": want, "got": a["out"], "outcome": oc})
+        all_cases += rnd.sample(cases, min(2, len(cases)))
+        reqs = meta = res = first = seen = None
+    cases = all_cases
+    for c in rnd.sample(cases, min(2, len(cases))):
         rep.sample({"graph": c["g"], "accepted": c["accepted"], "errors": c["errors"], "modules": L.render(c["g"])[0]})
     rep.cov["exhaustive"] = thorough and prop == "C15"
     if not finish:
